@@ -11,14 +11,10 @@ namespace NumbersModel.Translated
 open NumbersModel NumbersModel.Gen.T NumbersModel.Decimal128
 
 theorem bitAnd_nat (a b : Nat) (bi : Int) (hb : bi = (b : Int)) :
-    PyT.bitAnd (a : Int) bi = .ok ((a &&& b : Nat) : Int) := by
-  subst hb
-  have : ¬ ((a : Int) < 0 ∨ (b : Int) < 0) := by omega
-  simp only [PyT.bitAnd, this, if_false, Int.toNat_natCast]
+    PyT.bitAnd (a : Int) bi = ((a &&& b : Nat) : Int) := by
+  subst hb; rfl
 
-theorem bitOr_nat (a b : Nat) : PyT.bitOr (a : Int) (b : Int) = .ok ((a ||| b : Nat) : Int) := by
-  have : ¬ ((a : Int) < 0 ∨ (b : Int) < 0) := by omega
-  simp only [PyT.bitOr, this, if_false, Int.toNat_natCast]
+theorem bitOr_nat (a b : Nat) : PyT.bitOr (a : Int) (b : Int) = ((a ||| b : Nat) : Int) := rfl
 
 theorem shl_nat (a k : Nat) (ki : Int) (hk : ki = (k : Int)) : PyT.shl (a : Int) ki = .ok ((a <<< k : Nat) : Int) := by
   subst hk
